@@ -32,7 +32,8 @@ Special(c) ==
   CASE c.ty \in ValueTypes -> InputJson(c)                                  \* try_into / identity / clone
     [] c.ty \in {"String", "&str"} -> JStr(c.node.s)
     [] c.ty \in {"i8", "i16", "i32", "i64", "isize", "u8", "u16", "u32", "u64", "usize"} -> JIntS(c.node.v)   \* Number::from
-    [] c.ty \in {"f32", "f64"} -> Rat(c.node.p, c.node.q)             \* Number::from_f64 (finite inputs only are in the domain)
+    [] c.ty \in {"f32", "f64"} -> IF "special" \in DOMAIN c.node THEN JNull        \* non-finite: null, like the generic path (as found it was an
+                                   ELSE Rat(c.node.p, c.node.q)                  \* error: finding F17, switch DEV_SPECIALIZED_NONFINITE_ERROR in MC_Convert)
     [] c.ty = "bool" -> JBool(c.node.b)
     [] c.ty = "()" -> JNull
 ConvL1(cfg, c) == IF IsSpecialized(cfg) THEN Special(c) ELSE Conv0(c)
@@ -48,6 +49,7 @@ Inputs ==
   \cup {[ty |-> t, node |-> I2("u64", v)] : t \in {"u64", "usize"}, v \in {"18446744073709551615", "9223372036854775808", "0"}}
   \cup {[ty |-> "f64", node |-> [k |-> "f64", p |-> p, q |-> q]] : p \in {-3, 0, 1, 5}, q \in {1, 2, 4}}
   \cup {[ty |-> "f32", node |-> [k |-> "f32", p |-> p, q |-> q]] : p \in {-3, 1}, q \in {1, 2}}
+  \cup {[ty |-> t, node |-> [k |-> t, special |-> sp]] : t \in {"f32", "f64"}, sp \in {"nan", "inf", "ninf"}}
   \cup {[ty |-> t, node |-> [k |-> "str", s |-> s]] : t \in {"String", "&str"}, s \in {<<>>, <<97>>, <<233, 128512>>, <<34, 92>>,
                                                                                       <<49, 50, 51>>, <<116, 114, 117, 101>>, <<110, 117, 108, 108>>, <<91, 49, 44, 50, 93>>, <<34, 113, 34>>, <<123, 125>>}}
   \cup {[ty |-> "bool", node |-> [k |-> "bool", b |-> b]] : b \in BOOLEAN}
